@@ -10,7 +10,8 @@ go build ./... || { echo "(a) build FAILED"; exit 1; }
 a=$(go test -vet=off -count=1 ./... 2>&1 | grep -v "^ok\|no test files" | head -5)
 [ -z "$a" ] && echo "(a) suite passes with change" || { echo "(a) FAILED: $a"; }
 cp $sd/demo_test.go $pkg/zz_seed_demo_test.go
-go test -vet=off -count=1 -run "$pat" ./$pkg/ >/tmp/seed_b.txt 2>&1 && echo "(b) demo PASSED with change (bad)" || echo "(b) demo fails with change: $(grep -m2 -- '--- FAIL' /tmp/seed_b.txt | tr '\n' ' ')"
+go test -vet=off -count=1 -run "$pat" ./$pkg/ >/var/tmp/seed_b.$$.txt 2>&1 && echo "(b) demo PASSED with change (bad)" || echo "(b) demo fails with change: $(grep -m2 -- '--- FAIL' /var/tmp/seed_b.$$.txt | tr '\n' ' ')"
 git apply -R $sd/patch.diff
-go test -vet=off -count=1 -run "$pat" ./$pkg/ >/tmp/seed_c.txt 2>&1 && echo "(c) demo passes without change" || { echo "(c) demo FAILS without change (bad)"; tail -5 /tmp/seed_c.txt; }
+go test -vet=off -count=1 -run "$pat" ./$pkg/ >/var/tmp/seed_c.$$.txt 2>&1 && echo "(c) demo passes without change" || { echo "(c) demo FAILS without change (bad)"; tail -5 /var/tmp/seed_c.$$.txt; }
 rm -f $pkg/zz_seed_demo_test.go; git checkout -q -- .
+rm -f /var/tmp/seed_b.$$.txt /var/tmp/seed_c.$$.txt
